@@ -12,3 +12,11 @@ pub fn vpanic() -> !
 {
     panic!()
 }
+
+pub assume_specification<T, const N: usize>[ <[T]>::split_first_chunk ](s: &[T]) -> (r: Option<(&[T; N], &[T])>)
+    ensures
+        s@.len() < N ==> r is None,
+        s@.len() >= N ==> r is Some
+            && (r->Some_0).0@ == s@.subrange(0, N as int)
+            && (r->Some_0).1@ == s@.subrange(N as int, s@.len() as int),
+;
